@@ -4,6 +4,7 @@ import (
 	"errors"
 	"fmt"
 	"io"
+	"net/http"
 	"os"
 	"path/filepath"
 	"strings"
@@ -150,6 +151,10 @@ func runC11(r *run) {
 				emit(caseT{"absdiff", []string{has, fmt.Sprint(route)}})
 			}
 		}
+		// the same flat composition through every loader pongo2 ships, on a real directory
+		for i := 0; i < 40; i++ {
+			emit(caseT{"realloaders", []string{fmt.Sprint(i)}})
+		}
 		// pongo2's own loaders' path arithmetic against the model's
 		for _, base := range []string{"", "a.tpl", "d/a.tpl", "d/e/a.tpl", "/r/a.tpl", "./d/a.tpl", "d/../a.tpl"} {
 			for _, name := range []string{"x.tpl", "s/x.tpl", "../x.tpl", "../../x.tpl", "/x.tpl", "./x.tpl", "s/../x.tpl", "", ".", ".."} {
@@ -262,7 +267,69 @@ func execAbsDiff(r *run, c caseT) {
 	}
 }
 
+func execRealLoaders(r *run, c caseT) {
+	var i int
+	fmt.Sscanf(c.args[0], "%d", &i)
+	g := newRng(uint64(4242 + i))
+	files := map[string]string{
+		"base.tpl": "<{% block b %}base{% endblock %}|{% block c %}c0{% endblock %}>",
+		"lib.tpl":  "{% macro m(x) export %}[{{ x }}]{% endmacro %}",
+		"part.tpl": "P{{ v }}{{ x }}",
+		"raw.tpl":  "{{ not parsed }}",
+	}
+	body := ""
+	for k := 0; k < 1+g.intn(4); k++ {
+		body += g.pick([]string{"{% include \"part.tpl\" %}", "{% include \"part.tpl\" with v=1 %}", "{% include \"part.tpl\" with v=2 only %}", "{% set n = \"part.tpl\" %}{% include n %}",
+			"{% ssi \"raw.tpl\" %}", "{% ssi \"part.tpl\" parsed %}", "{% import \"lib.tpl\" m %}{{ m(x) }}", "{% include \"missing.tpl\" if_exists %}", "t"})
+	}
+	if g.chance(1, 2) {
+		files["main.tpl"] = "{% extends \"base.tpl\" %}{% block b %}" + body + "{{ block.Super }}{% endblock %}"
+	} else {
+		files["main.tpl"] = body
+	}
+	dir := filepath.Join(r.outdir, fmt.Sprintf("tree%d", i))
+	must(os.MkdirAll(dir, 0o755))
+	for n, src := range files {
+		must(os.WriteFile(filepath.Join(dir, n), []byte(src), 0o644))
+	}
+	render := func(l pongo2.TemplateLoader) string {
+		set := pongo2.NewSet("real", l)
+		out, err := set.RenderTemplateFile("main.tpl", pongo2.Context{"x": "X"})
+		if err != nil {
+			return "err:" + err.Error()
+		}
+		return out
+	}
+	want := render(newMemLoader(files))
+	sand, err := pongo2.NewSandboxedFilesystemLoader(dir)
+	must(err)
+	httpl, err := pongo2.NewHttpFileSystemLoader(http.Dir(dir), "")
+	must(err)
+	got := map[string]string{
+		"LocalFilesystemLoader":     render(pongo2.MustNewLocalFileSystemLoader(dir)),
+		"SandboxedFilesystemLoader": render(sand),
+		"FSLoader":                  render(pongo2.NewFSLoader(os.DirFS(dir))),
+		"HttpFilesystemLoader":      render(httpl),
+	}
+	id := r.emit(c.op, c.args, "realloaders:"+hx(want))
+	r.nontrivial("realloaders" + c.args[0])
+	if strings.HasPrefix(want, "err:") {
+		r.reject(id, "the composition does not render with the in-memory loader", map[string]any{"files": files, "observed": want})
+		return
+	}
+	for ln, o := range got {
+		if o != want {
+			r.reject(id, "a composition renders differently through one of pongo2's own loaders", map[string]any{"files": files, "loader": ln, "observed": o, "expected": want})
+			return
+		}
+	}
+}
+
 func execC11(r *run, c caseT) {
+	if c.op == "realloaders" {
+		execRealLoaders(r, c)
+		return
+	}
 	if c.op == "absdiff" {
 		execAbsDiff(r, c)
 		return
